@@ -19,10 +19,15 @@ EXPLANATION = (
     "freshly inserted key is popped again and parameters are lost); every change_signature must build the renamed container from a "
     "snapshot. C18.order: what is written into self.signature (dict comprehension, loop with d[k] = v, dict(zip()), update, "
     "re-binding) has keys map[old] and values type(old) for the same old parameter, where old ranges over the old signature in its "
-    "own order (no sorted / reversed / set, not the order of the renaming map), without a filter; when the dict is refilled in "
-    "place the old entries are cleared first and the snapshot is taken before the clear. C18.fields: Action.change_signature hands "
+    "own order (no sorted / reversed / set, not the order of the renaming map), without a filter (also not next() on the iterator that "
+    "feeds the insertion) and from ONE iteration step (two nested iterations over the signature combine every name with every type; "
+    "a type taken by position must use the enumerate position of the renamed parameter); when the dict is refilled in "
+    "place the old entries are cleared first (clear(), or a loop that deletes every key of a snapshot) and the snapshot is taken before "
+    "the clear -- a live view / iterator / generator expression over the signature that is bound to a name is read where it is consumed; "
+    "no path to a normal return bypasses the rewriting unless it is taken only for an empty signature. C18.fields: Action.change_signature hands "
     "the renaming map to change_signature of (every element of) each field of Action that mentions parameters and rewrites its own "
-    "signature (a call that is conditional inside its loop does not count); CompoundPrecondition and NumericalExpressionTree pass "
+    "signature (a call that is conditional inside its loop does not count, nor one that a return can bypass while the field has "
+    "elements); CompoundPrecondition and NumericalExpressionTree pass "
     "the map on to their root / leaves; in Precondition.change_signature a renaming call is reachable for every kind of operand "
     "(valuation of the isinstance tests for Predicate / NumericalExpressionTree / nested Precondition, here and in "
     "Precondition.__iter__ when the operands are obtained by iterating the condition). C18.pairs: every component "
@@ -32,8 +37,12 @@ EXPLANATION = (
     "functions are re-spelled in plain forms (getattr / setattr with literal names, operator.attrgetter / itemgetter / methodcaller / "
     "getitem, functools.partial, lambdas and bound methods bound once to a name, map / filter / starmap, loops and comprehensions "
     "over constant tables with the literal tests decided, next(.. for .. in TABLE if ..) dispatch, exhausted generators, "
-    "chain.from_iterable of a display), and a value that is put into a slot of a tuple / NamedTuple / dataclass record or into an "
-    "intermediate container and selected again is identified with itself (a set in between counts as loss of order)."
+    "chain.from_iterable of a display, TABLE[<literal>](..) of a constant table of callables, helper(a, *x) of a fixed-arity helper, private "
+    "helpers that only compute an expression inside comprehensions, eager comprehensions / generator helpers consumed in the middle of "
+    "an expression moved into a statement of their own so that the inliner expands them, helpers of other modules that call private "
+    "functions of their own module), and a value that is put into a slot of a tuple / NamedTuple / dataclass record or into an "
+    "intermediate container (also through zip / enumerate) and selected again is identified with itself (a set in between counts as "
+    "loss of order)."
 )
 UNDECIDED = "behavioural equivalence of the renamed action (applicability and successors for every argument tuple)"
 
@@ -176,7 +185,7 @@ def _judge_signature_entries(ents, mp: str) -> Tuple[Optional[str], dict]:
             return f"the name looked up in the renaming map is not a parameter name of the old signature ({c[0]} {c[1] or ''})", sample
     if not vals_plain:
         return "the new signature has no types", sample
-    by_lookup = False
+    by_lookup = by_position = False
     for x in vals_plain:
         c = U.ordered_source(x, SIG)
         if c is None:
@@ -185,19 +194,68 @@ def _judge_signature_entries(ents, mp: str) -> Tuple[Optional[str], dict]:
             return f"the old types are visited in another order ({c[1]})", sample
         if c[0] == "lookup":
             by_lookup = True
+        elif c == ("positional", "values"):
+            by_position = True
         elif c[0] == "value":
             # the type and the name belong to the same item of the iteration
-            if x[-1] in ("unpack:1", "item:1") and not any(k == x[:-1] + (s,) for k in keys_idx for s in ("unpack:0", "item:0")):
+            if "call:items" in x and x[-1] in ("unpack:1", "item:1") and not any(k == x[:-1] + (s,) for k in keys_idx for s in ("unpack:0", "item:0")):
                 return "the type does not belong to the parameter that is renamed (different iterations)", sample
         else:
             return f"a value of the new signature is not the type of an old parameter ({c[0]} {c[1] or ''})", sample
-    if by_lookup:
+    if by_position:
+        # list(old.values())[i]: i must be the position (enumerate) of the very parameter that is renamed in this step
+        if by_lookup or not vals_idx:
+            return "the type is taken from a position that is not the position of the renamed parameter", sample
+        for k in vals_idx:
+            own = len(k) >= 3 and k[-3] == "arg0:enumerate" and k[-2] == "elem" and k[-1] in ("unpack:0", "item:0") \
+                and U.ordered_source(k[:-3], SIG) in (("key", None), ("object", None)) \
+                and any(k2 == k[:-1] + (s_,) for k2 in keys_idx for s_ in ("unpack:1", "item:1"))
+            if not own:
+                return f"the type is taken from a position that is not the position of the renamed parameter ({'/'.join(k)})", sample
+    elif by_lookup:
         if not vals_idx:
             return "the type is looked up under something else than the old name", sample
         for k in vals_idx:
             if k not in keys_idx:
                 return f"the type is looked up under another name than the one that is renamed ({'/'.join(k)})", sample
     return None, sample
+
+
+def _nonempty_atom(v: U.View, obj):
+    """matcher: tests of `the container has entries` -> atom 'nonempty':  X / len(X) / len(X) > 0 / len(X) != 0 / len(X) >= 1,
+    '!nonempty' for len(X) == 0 / len(X) < 1 / X == {} (X: the object, a view or an order-keeping copy of it)"""
+    views = set(U.ORDER_PASS) | {"call:items", "call:keys", "call:values"}
+
+    def is_container(e) -> bool:
+        if not isinstance(e, (ast.Name, ast.Attribute, ast.Call)):
+            return False
+        tr = v.trace(e)
+        return bool(tr) and all(x[:len(obj)] == tuple(obj) and all(s in views for s in x[len(obj):]) for x in tr)
+
+    def is_len(e) -> bool:
+        return isinstance(e, ast.Call) and isinstance(e.func, ast.Name) and e.func.id == "len" and len(e.args) == 1 and not e.keywords and is_container(e.args[0])
+
+    def m(e):
+        if is_len(e):
+            return "nonempty"
+        if isinstance(e, ast.Compare) and len(e.ops) == 1:
+            left, op, right = e.left, e.ops[0], e.comparators[0]
+            if is_len(right) and isinstance(left, ast.Constant):
+                flip = {ast.Lt: ast.Gt, ast.Gt: ast.Lt, ast.LtE: ast.GtE, ast.GtE: ast.LtE}
+                left, right, op = right, left, flip.get(type(op), type(op))()
+            if is_len(left) and isinstance(right, ast.Constant) and type(right.value) is int:
+                k = right.value
+                table = {(ast.Eq, 0): "!nonempty", (ast.NotEq, 0): "nonempty", (ast.Gt, 0): "nonempty", (ast.GtE, 1): "nonempty",
+                         (ast.Lt, 1): "!nonempty", (ast.LtE, 0): "!nonempty"}
+                return table.get((type(op), k))
+            if isinstance(op, (ast.Eq, ast.NotEq)) and is_container(left) and U._is_empty_literal(right):
+                return "!nonempty" if isinstance(op, ast.Eq) else "nonempty"
+            return None
+        if isinstance(e, (ast.Name, ast.Attribute)) and isinstance(getattr(e, "ctx", None), ast.Load) and is_container(e):
+            return "nonempty"
+        return None
+
+    return m
 
 
 def rule_order(repo: Repo) -> RuleResult:
@@ -221,6 +279,8 @@ def rule_order(repo: Repo) -> RuleResult:
                 flt = U.filtered(v, w.site, w.value)
                 if flt:
                     why = f"not every parameter is carried over: {flt}"
+            if why is None:
+                why = U.crossed_iterations(v, w.site, w.value, SIG)
             if why:
                 break
         if why:
@@ -246,7 +306,9 @@ def rule_order(repo: Repo) -> RuleResult:
                 if isinstance(cur, (ast.For, ast.While)):
                     passed.add(g.node_of(cur))      # a loop over the old parameters that performs the rewriting (no turn for an empty signature)
         passed.discard(None)
-        if passed and g.exit in C.reachable_from(g, g.entry, avoid=passed):
+        # (a path that is only taken when the old signature is empty rewrites nothing because there is nothing to rewrite)
+        if passed and g.exit in C.reachable_from(g, g.entry, avoid=passed) \
+                and g.exit in L.Guards(f, _nonempty_atom(v, SIG)).reach({"nonempty": True}, avoid=passed):
             r.fail(Finding("C18.order", f, "rename-skipped", "some path through the method returns without rewriting the signature: the object keeps its old "
                            "parameter names while the rest of the action is renamed", node=rep.inserts[0].site), sample)
             continue
@@ -275,6 +337,24 @@ def _passes_map_to(v: U.View, mp: str, prefix: tuple, every: bool = False) -> bo
     return False
 
 
+def _field_bypassed(v: U.View, mp: str, prefix: tuple) -> bool:
+    """a normal return is reachable from the entry without passing any X.change_signature(map) on (an element of) the field --
+    other than by the field being empty"""
+    g = v.g
+    passed = set()
+    for c in _rename_calls(v, mp):
+        if not any(x[:len(prefix)] == prefix for x in v.trace(c.func.value)):
+            continue
+        passed.add(v.node_of(c))
+        for a in v.ancestors(c):
+            if isinstance(a, (ast.For, ast.While)):
+                passed.add(g.node_of(a))        # no turn of a loop over an empty field
+    passed.discard(None)
+    if not passed or g.exit not in C.reachable_from(g, g.entry, avoid=passed):
+        return False
+    return g.exit in L.Guards(v.f, _nonempty_atom(v, prefix)).reach({"nonempty": True}, avoid=passed)
+
+
 def rule_fields(repo: Repo) -> RuleResult:
     r = RuleResult("C18.fields", "Action.change_signature renames every part of the action that mentions parameters",
                    "the renamed schema is applicable in the same states and produces the same successors")
@@ -293,7 +373,10 @@ def rule_fields(repo: Repo) -> RuleResult:
             if dyn:
                 raise AnalysisError(f"{f.qn}: {unparse(dyn[0], 60)} is called on getattr(self, <name that is not a literal of a constant table>): "
                                     f"cannot tell which fields are renamed")
-        if ok:
+        if ok and fld != "signature" and _field_bypassed(v, mp, ("self", f"attr:{fld}")):
+            r.fail(Finding("C18.fields", f, f"field:{fld}", f"some path through Action.change_signature returns without renaming self.{fld} although it has elements: "
+                           f"parameters mentioned there keep their old names"))
+        elif ok:
             r.ok({"field": fld, "visited": True})
         elif fld != "signature" and _passes_map_to(v, mp, ("self", f"attr:{fld}")):
             r.fail(Finding("C18.fields", f, f"field:{fld}", f"Action.change_signature renames only some elements of self.{fld} (the call is conditional / the loop skips "
@@ -533,7 +616,8 @@ def rule_pairs(repo: Repo) -> RuleResult:
 
 def rules(repo: Repo, tier: str) -> List[RuleResult]:
     from . import c08
-    renamers = [f for f in repo.all_funcs() if f.name == "change_signature"]
+    # (re-spelled in plain forms like the anchors: a call through a constant table of lambdas is the lambda's body ..)
+    renamers = [U.respelled(repo, f) for f in repo.all_funcs() if f.name == "change_signature"]
     return [rule_simul(repo), rule_order(repo), rule_fields(repo), rule_pairs(repo),
             # every occurrence is renamed: the objects to rename must not be collected in a dict keyed by a part of them (two leaves of
             # one expression tree that mention the same fluent share their id)
